@@ -80,4 +80,13 @@ theorem assert_holds_normalized (V : Mat ℂ n s) (hV : frobSq V ≠ 0) :
   rw [e2]
   simp
 
+/-- the repaired svd initialisation keeps exactly `Ns` singular vectors -/
+theorem svdInitKept_repaired (nr nt ns : Nat) (h : ns ≤ nt) : svdInitKept true nr nt ns = ns := by
+  simp only [svdInitKept, svdInitDiscard, if_true]; omega
+
+/-- the design-round one kept `Nt − Nr + Ns` (or none): wrong as soon as `Nt ≠ Nr` -/
+theorem svdInitKept_orig (nr nt ns : Nat) (h1 : 1 ≤ ns) (h2 : ns ≤ nr) (h3 : ns ≤ nt) (hne : nr ≠ nt) :
+    svdInitKept false nr nt ns ≠ ns := by
+  simp only [svdInitKept, svdInitDiscard, Bool.false_eq_true, if_false]; omega
+
 end PyPhysim.C10
